@@ -21,7 +21,7 @@ PROPS = {
                     "what": "BOUNDED cross-check (not part of the proof): Satisfies(a, [b]) against the documented single-term rule for pairs of terms built from every id of the shipped family table (plain, '+', lower case) and a sample of the other listed ids, LicenseRef / DocumentRef terms, in both orders, on the real code and the real table"},
         "assumptions": [
             "strings.EqualFold is reflexive (the only axiom used)",
-            "symmetry / reflexivity of the rule are properties of the spec predicate licMatch / refMatch (symmetric by inspection); they are not mechanised as separate lemmas",
+            "symmetry and reflexivity of the rule, 'a license never matches a reference' and '+ stays in the family' are lemmas about the spec predicates licMatch / refMatch / matchT (licMatchSymmetric, refMatchSymmetric, matchSymmetric, licMatchReflexive, refMatchReflexive, licenseNeverMatchesRef, plusStaysInFamily), proved on every run from the definitions alone",
             "the family table is the abstract constant RangeAt: the theorem holds for whatever table the tree ships",
         ],
     },
